@@ -781,7 +781,10 @@ class PhaseField(_IModel):
             tr_e_pg = Trace(matrix_e_pg)
 
             # Eigenvalue calculations [e,pg]
-            delta = tr_e_pg**2 - (4 * det_e_pg)
+            # tr^2 - 4 det written as a sum of squares: never negative by round-off
+            delta = (matrix_e_pg[..., 0, 0] - matrix_e_pg[..., 1, 1]) ** 2 + 4 * (
+                matrix_e_pg[..., 0, 1] ** 2
+            )
 
             eigs_e_pg = FeArray.zeros(Ne, nPg, 2)
             eigs_e_pg[:, :, 0] = (tr_e_pg - np.sqrt(delta)) / 2
